@@ -54,7 +54,6 @@ static void euler(const IV & r, const IV & p, const IV & y, double turnsR, doubl
   V3 qb = quaternionToEulerAngles(qs);
   IM back = {projAngle<S>(b[0], r[2], ok), projAngle<S>(b[1], p[2], ok), projAngle<S>(b[2], y[2], ok)};
   IM qback = {projAngle<S>(qb[0], r[2], ok), projAngle<S>(qb[1], p[2], ok), projAngle<S>(qb[2], y[2], ok)};
-  for (int i = 0; i < 3; ++i) {if (!(b[i] >= 0 && b[i] <= (S)(2 * M_PI + 1e-6))) {ok = false;}}
   vh::Ev e("euler");
   e.vec("r", r).vec("p", p).vec("y", y).i("float", sizeof(S) == 4).mat("Rm", projMat<S>(Rm, 3, D, ok)).mat("Rq", projMat<S>(Rq, 3, D, ok))
   .mat("back", back).mat("qback", qback);
@@ -116,7 +115,6 @@ static void planar(vh::Out & out)
     Eigen::Matrix<S, 2, 2> Rm = eulerAngleToRotation2D((S)rad(a));
     S th = rotation2DToEulerAngle(Rm);
     IV back = projAngle<S>(th, a[2], ok);
-    if (!(th >= 0 && th <= (S)(2 * M_PI + 1e-6))) {ok = false;}
     out.put(vh::Ev("rot2").vec("a", a).mat("Rm", projMat<S>(Rm, 2, (double)a[2], ok)).vec("back", back).b("ex", ok));
     for (long long r : {1LL, 5LL, 1000LL}) {
       bool okp = true;
